@@ -215,6 +215,7 @@ func (o *OvsdbServer) Transact(client *rpc2.Client, args []json.RawMessage, repl
 	}
 	transactionID := uuid.New()
 	o.processMonitors(db, transactionID, updates)
+	verifPoint("transact.notified")
 	return o.db.Commit(db, transactionID, updates)
 }
 
